@@ -47,6 +47,7 @@ type AccountSpec struct {
 	Password    string   `json:"pw"`
 	Unconfirmed bool     `json:"unconf,omitempty"`
 	Locked      bool     `json:"locked,omitempty"`
+	RmTokens    int      `json:"rm_tokens,omitempty"` // remember tokens already in storage for this account (issued by another instance on the same database)
 	HashKind    string   `json:"hash_kind,omitempty"` // "", or a stored password no bcrypt can read: "empty", "md5", "sha256crypt", "trunc"
 	OTPs        int      `json:"otps,omitempty"`
 	TOTP        bool     `json:"totp,omitempty"`
@@ -94,6 +95,8 @@ type Config struct {
 	NoArbitraryUser bool     `json:"no_arbitrary_user,omitempty"` // the application's user type does not implement authboss.ArbitraryUser
 	PlainRegValues  bool     `json:"plain_reg_values,omitempty"`  // the application's body reader returns register values that implement UserValuer only (no ArbitraryValuer)
 	WriterWrap      string   `json:"writer_wrap,omitempty"`       // an application middleware right behind LoadClientStateMiddleware wraps the response writer (compression, metrics): "underlying" exposes it through UnderlyingResponseWriter(), "unwrap" through Unwrap() only
+	App2FAHook      bool     `json:"app_2fa_hook,omitempty"`     // the application hooks After(EventTwoFactorAdded) while configuring authboss (before the 2FA Setup calls) and answers the request itself (a "2FA is on now" page)
+	ProviderParams  bool     `json:"provider_params,omitempty"`  // the providers' OAuth2Provider.AdditionalParams is set (access_type=offline), as the sample configuration for Google does
 	StockDetails    bool     `json:"stock_details,omitempty"`     // providers use the library's own GoogleUserDetails / FacebookUserDetails (the in-process provider answers their user-info endpoints)
 	NoCookieStore   bool     `json:"no_cookie_store,omitempty"`   // Storage.CookieState left nil (documented as needed for remember-me only)
 	Localizer       string   `json:"localizer,omitempty"`         // "untranslated": a Localizer whose catalog has no entry for the request's language (answers "" as its contract says; the library falls back to the default texts)
@@ -402,7 +405,7 @@ func NewWorld(cfg Config) (w *World, err error) {
 		ab.Config.Storage.Server = storeNoRemember{w.Store}
 	}
 	ab.Config.Storage.SessionState = StateRW{Session: true, B: w.B, Resolve: resolve, NilWhenEmpty: cfg.NilEmptyState}
-	if !cfg.NoCookieStore || cfg.Has("remember") || cfg.Middleware == "remember" {
+	if !cfg.NoCookieStore || cfg.Middleware == "remember" {
 		ab.Config.Storage.CookieState = StateRW{Session: false, B: w.B, Resolve: resolve}
 	}
 
@@ -458,6 +461,11 @@ func NewWorld(cfg Config) (w *World, err error) {
 				},
 				FindUserDetails: w.findUserDetails,
 			}
+			if cfg.ProviderParams {
+				pr := ab.Config.Modules.OAuth2Providers[p]
+				pr.AdditionalParams = url.Values{"access_type": {"offline"}}
+				ab.Config.Modules.OAuth2Providers[p] = pr
+			}
 			if cfg.StockDetails {
 				pr := ab.Config.Modules.OAuth2Providers[p]
 				if p == "fb" {
@@ -493,6 +501,15 @@ func NewWorld(cfg Config) (w *World, err error) {
 	}
 	// The documentation does not order the Setup() calls relative to Init():
 	// both orders are valid configurations.
+	if cfg.App2FAHook {
+		ab.Events.After(authboss.EventTwoFactorAdded, func(rw http.ResponseWriter, r *http.Request, handled bool) (bool, error) {
+			if handled {
+				return false, nil
+			}
+			ro := authboss.RedirectOptions{Code: http.StatusTemporaryRedirect, RedirectPath: "/ok/2fa-added", Success: "Two-factor authentication is on"}
+			return true, ab.Config.Core.Redirector.Redirect(rw, r, ro)
+		})
+	}
 	if cfg.SetupsFirst {
 		if err := setups(); err != nil {
 			return nil, err
@@ -696,6 +713,10 @@ func (w *World) seedAccounts() {
 		}
 		u.RecoveryCodes = strings.Join(rh, ",")
 		w.Store.Seed(u)
+		for k := 0; k < a.RmTokens; k++ {
+			sum := sha512.Sum512(derive(w.Cfg.Seed, fmt.Sprintf("rmtok-%d-%d", i, k), 32))
+			w.Store.SeedToken(u.PID, base64.StdEncoding.EncodeToString(sum[:]))
+		}
 		w.Seeded = append(w.Seeded, sd)
 	}
 }
